@@ -33,6 +33,14 @@ var Solvers = []SolverSpec{
 		return []string{fmt.Sprintf("--tlimit=%d", t*1000), "--lang=smt2", f}
 	}},
 	{Name: "z3", Bin: "z3", Args: func(f string, t int) []string { return []string{fmt.Sprintf("-T:%d", t), f} }},
+	// the same solver with other random seeds: quantified obligations are sensitive to the case-split order
+	// (measured: one obligation 292 s with the default seed, 40 s with seed 2 or 3)
+	{Name: "z3-new/seed2", Bin: "z3-new", Args: func(f string, t int) []string {
+		return []string{fmt.Sprintf("-T:%d", t), "smt.random_seed=2", "sat.random_seed=2", f}
+	}},
+	{Name: "z3-new/seed3", Bin: "z3-new", Args: func(f string, t int) []string {
+		return []string{fmt.Sprintf("-T:%d", t), "smt.random_seed=3", "sat.random_seed=3", f}
+	}},
 }
 
 func runOne(ctx context.Context, sp SolverSpec, file string, timeoutS int) Result {
